@@ -62,6 +62,9 @@ func resourceInfoToK8sObject(info *resource.Info, l logger.Logger, muteErrsAndWa
 		resObject.Kind = unstructuredObj.GetKind()
 		var err error
 		objField := resObject.getEmptyInitializedFieldObjByKind(resObject.Kind)
+		if objField != nil && !isKindOfRelevantGroup(resObject.Kind, unstructuredObj.GroupVersionKind().Group) {
+			objField = nil // same kind name, other API group: not a resource the analysis uses
+		}
 		if objField == nil {
 			l.Infof("in file: %s, skipping object with type: %s", info.Source, resObject.Kind)
 			return nil, nil
